@@ -541,7 +541,8 @@ def do_check(pid, tier, seed, jobs, keep):
         if bad:
             violations.append((h, bad))
         elif r.get("status") != "Success" and not cl["foreign_fail"] and not cl["covers_unsat"]:
-            inconclusive.append("harness %s: status %s without a classified failure" % (h, r.get("status")))
+            inconclusive.append("harness %s: status %s and no check result — CBMC did not finish (per-harness "
+                                "timeout or out of memory)" % (h, r.get("status")))
         if cl["covers_unsat"] and not bad:
             inconclusive.append("harness %s: vacuity witness not reachable: %s" % (h, cl["covers_unsat"]))
         if len(samples) < 12:
